@@ -81,7 +81,11 @@ def monomial(rng, pool, maxdeg=3):
     m = fs[0]
     for f in fs[1:]:
         m = ["*", m, f]
-    if rng.random() < 0.75:
+    k = rng.random()
+    if k < 0.1 and not NICE[0]:
+        # a quotient of whole numbers that is no terminating decimal: sympy keeps it as an exact rational coefficient
+        m = ["/", ["*", rng.choice(["1", "2", "13", "1000", "100000", "-7"]), m], rng.choice(["3", "7", "6", "9"])]
+    elif k < 0.75:
         c = coeff(rng)
         m = ["*", c, m] if rng.random() < 0.5 else ["*", m, c]
     return m
@@ -101,7 +105,7 @@ def expression(rng, pool, allow_div=True):
     e = poly(rng, pool, rng.choice([1, 2, 2, 3, 4]))
     k = rng.random()
     if allow_div and k < 0.08:
-        e = ["/", e, rng.choice(["2", "4", "0.5"])]
+        e = ["/", e, rng.choice(["2", "4", "0.5"] if NICE[0] else ["2", "4", "0.5", "3", "7"])]
     elif allow_div and k < 0.14:
         e = ["/", rng.choice(["1", "2"]), sexpr.read(rng.choice(pool))]
     elif allow_div and k < 0.18:
@@ -281,6 +285,13 @@ def poly_of(ast, perturb=None):
     h = ast[0]
     if h in SIGS:
         return Poly.var("v" + sexpr.render(ast))
+    if h == "/" and perturb is not None:
+        # a numeral divisor in the output is taken as printed (the simplifier's own output multiplies by a rounded reciprocal
+        # instead; a quotient by a numeral only appears where a side of a comparison was copied unsimplified)
+        l, r = poly_of(ast[1], perturb), poly_of(ast[2], None)
+        if l is None or r is None or not r.is_const() or r.get((), 0) == 0:
+            return None
+        return l * Poly.const(1 / r[()])
     l, r = poly_of(ast[1], perturb), poly_of(ast[2], perturb)
     if l is None or r is None:
         return None
@@ -683,6 +694,14 @@ def replay_case(case):
     return run_case(case)
 
 
+def divides_by_fluent(tree) -> bool:
+    if isinstance(tree, str):
+        return False
+    if tree[0] == "/" and len(tree) == 3 and not isinstance(tree[2], str):
+        return True
+    return any(divides_by_fluent(t) for t in tree[1:])
+
+
 def cases_for(tier, seed):
     rng = random.Random(seed * 977 + 3)
     cases = []
@@ -715,11 +734,16 @@ def cases_for(tier, seed):
             make = (lambda: condition(rng, pool, op=rng.choice(["<=", ">=", "<", ">"]))) if k < 4 else \
                 (lambda: condition(rng, pool, op="=")) if k < 6 else (lambda: expression(rng, pool))
             c = make()
-            if "/" in sexpr.render(c):
+            if divides_by_fluent(c):  # a quotient by a numeral is a polynomial with a rational coefficient: compared with tolerance
                 NICE[0] = True
                 c = make()
                 NICE[0] = False
                 d = 4 + (i % 3)
+            elif "/" in sexpr.render(c) and d < 2:
+                # an exact rational coefficient (k/3, k/7, k/9 ...): sympy may pull it out as a factor of a whole product, and a
+                # factor that rounds to 0 at 0-1 decimals makes the simplifier print 0 for the product -- "rounding of a
+                # coefficient" by the letter, but not explainable term by term; these inputs are checked at >= 2 decimals
+                d = 2 + (i % 5)
             entry = ("inequality" if k < 3 else "tree_method") if k < 4 else "equality" if k < 6 else "expression"
             cases.append({"entry": entry, "conds": [c], "digits": d})
         else:
